@@ -178,12 +178,21 @@ def collect(ctx, pid):
             d = ctx.by_name[name]
             if d['kind'] == 'enum':
                 for label, ok in obs:
+                    if label == 'enum:surface':
+                        continue
                     if pid == 'C07' or label == 'enum:new_with_raw_value':
                         out.append({'decl': name, 'label': label, 'ok': ok,
                                     'shape': json.dumps([label, d['bits'], d.get('exh'), len(d['variants'])])})
         return out
     sel = SELECT.get(pid)
     sl = STRUCT_LABELS.get(pid)
+    if pid == 'C18':
+        for name, obs in ctx.ob['obligations'].items():
+            d = ctx.by_name[name]
+            if d['kind'] == 'enum':
+                for label, ok in obs:
+                    if label == 'enum:surface':
+                        out.append({'decl': name, 'label': label, 'ok': ok, 'shape': json.dumps([label, d['bits'], d.get('exh')])})
     for name, obs in ctx.ob['obligations'].items():
         d = ctx.by_name[name]
         if d['kind'] != 'bitfield':
